@@ -149,3 +149,21 @@ Theorem C06_two_null_puts_example :
 Proof. exact c06a_two_null_puts. Qed.
 Print Assumptions C06_two_writers_example.
 Print Assumptions C06_two_null_puts_example.
+
+(* c_alive from the requests: c exists at the start, no request is DELETE /allocations/c, and no entry for c in a (well-formed)
+   request has empty allocations - then c exists after every step of every schedule.  (For c_no_end there is no such condition on
+   the requests alone: a request carrying null that creates c and is then refused removes it again.) *)
+Theorem C06_alive_from_requests : forall cf reqs s d c,
+  cgen_of d c <> None -> Forall (fun r => req_wf r = true /\ keeps_consumer c r) reqs ->
+  c_alive cf c s (map (ainit cf) reqs) d.
+Proof. exact c06a_alive_from_requests. Qed.
+Print Assumptions C06_alive_from_requests.
+(* ... hence, with C06_at_most_one_all_kinds: of such requests holding g for c at most one increments c *)
+Theorem C06_at_most_one_from_requests : forall cf reqs s d c g,
+  cgen_of d c <> None -> Forall (fun r => req_wf r = true /\ keeps_consumer c r) reqs ->
+  let fs := map (cholds0 cf c g) reqs in
+  let '(_, _, tl) := c_run_tally cf c s (map (ainit cf) reqs) d (map (fun _ => 0) reqs) in
+  cnt fs tl <= 1 /\
+  forall i j, i <> j -> nth i fs false = true -> nth j fs false = true -> 0 < nth i tl 0 -> 0 < nth j tl 0 -> False.
+Proof. intros cf reqs s d c g Hc Hf. apply c06a_at_most_one. apply c06a_alive_from_requests; assumption. Qed.
+Print Assumptions C06_at_most_one_from_requests.
